@@ -62,6 +62,10 @@ type Peer struct {
 	MidBlock   []string          `json:"mid_block,omitempty"`
 	PreFS      []string          `json:"pre_fs,omitempty"`
 	EarlyFQ    bool              `json:"early_fq"`
+	// EarlyFQData: the early FQ also follows a block of which messages were sent; HangUp: the peer hangs up as soon as
+	// its session is over (CMS closes the connection right behind its FQ), so that later writes of the library fail
+	EarlyFQData bool `json:"early_fq_data,omitempty"`
+	HangUp      bool `json:"hang_up,omitempty"`
 	HoldIsAccept bool            `json:"hold_is_accept,omitempty"`
 	Gzip       bool              `json:"gzip"`
 	GzipMsgs   bool              `json:"gzip_msgs"`
@@ -150,7 +154,7 @@ func Run(c Case) (sig, msg string, oc Outcome) {
 
 	pc := b2f.Config{Master: c.Peer.Master, Call: c.Peer.Call, Locator: c.Peer.Locator, SID: c.Peer.SID, FW: c.Peer.FW, MOTD: c.Peer.MOTD,
 		Challenge: challenge, Prompt: c.Peer.Prompt, Dup: c.Peer.Dup, Answers: c.Peer.Answers, BlockSizes: c.Peer.BlockSizes,
-		PreBlock: c.Peer.PreBlock, MidBlock: c.Peer.MidBlock, PreFS: c.Peer.PreFS, EarlyFQ: c.Peer.EarlyFQ, HoldIsAccept: c.Peer.HoldIsAccept, Gzip: c.Peer.Gzip, Late: c.Peer.Late, Exp: exp}
+		PreBlock: c.Peer.PreBlock, MidBlock: c.Peer.MidBlock, PreFS: c.Peer.PreFS, EarlyFQ: c.Peer.EarlyFQ, EarlyFQAfterData: c.Peer.EarlyFQData, HoldIsAccept: c.Peer.HoldIsAccept, Gzip: c.Peer.Gzip, Late: c.Peer.Late, Exp: exp}
 	peerBytes := map[string][]byte{}
 	for _, spec := range c.Peer.Queue {
 		m, err := spec.Build()
@@ -200,6 +204,9 @@ func Run(c Case) (sig, msg string, oc Outcome) {
 	el, ep := stream.Pair()
 	el.SetReadSchedule(c.Lib.Sched)
 	ep.SetReadSchedule(c.Peer.Sched)
+	if c.Peer.HangUp {
+		ep.HangUpOnClose()
+	}
 
 	var stats fbb.TrafficStats
 	var lerr error
@@ -532,6 +539,10 @@ func GenCase(t *rapid.T) Case {
 		c.Peer.PreFS = []string{comment(t, "prefs", c.Lib.Call, c.Peer.Call, libMids)}
 	}
 	c.Peer.EarlyFQ = rapid.Bool().Draw(t, "early_fq")
+	if c.Peer.EarlyFQ {
+		c.Peer.EarlyFQData = rapid.Bool().Draw(t, "early_fq_data")
+		c.Peer.HangUp = rapid.Bool().Draw(t, "hang_up")
+	}
 	if len(peerMids) > 0 && rapid.IntRange(0, 3).Draw(t, "dup") == 0 {
 		c.Peer.Dup = map[string]bool{peerMids[rapid.IntRange(0, len(peerMids)-1).Draw(t, "dupmid")]: true}
 	}
